@@ -97,10 +97,14 @@ class ExcelArrayOps(object):
         self.arr = arr
 
     def adapt_value(self, value):
-        if isinstance(value, list) and len(value) == 1:
-            value = value[0]
         if not isinstance(value, list):
-            value = [value for i in range(len(self.arr))]
+            return [value for i in range(len(self.arr))]
+        if len(value) == 1 and len(self.arr) != 1:
+            # a one-element array combines like a scalar ...
+            return [value[0] for i in range(len(self.arr))]
+        if len(self.arr) == 1 and len(value) > 1:
+            # ... on the left as well as on the right
+            self.arr = [self.arr[0] for i in range(len(value))]
         return value
 
     def __add__(self, value):
